@@ -4,6 +4,7 @@ invariants over the worklist and the accumulated result. No bound on program siz
 appears in any statement (the fuel is universally quantified; running out of it is a reported flag).
 -/
 import HalmosVerif.Lemmas.SevmSim
+import HalmosVerif.Model.SevmCalls
 
 set_option linter.unusedSectionVars false
 set_option linter.unusedSimpArgs false
@@ -15,10 +16,10 @@ open HalmosVerif.Model HalmosVerif.Model.Sevm HalmosVerif.Spec HalmosVerif.Lemma
 /-- the state `run` starts from -/
 def initState : SState := { pc := 0, stack := [], path := [] }
 
-/-- the concrete run from `f0` reaches a frame whose stack exceeds the EVM limit of 1024 items
-    (halmos does not model the limit, so this case is kept explicit in every statement) -/
-def Overflows (p : Evm.Params) (w : Evm.World) (f0 : Evm.Frame) : Prop :=
-  ∃ f, CReach p w f0 f ∧ f.stack.length > 1024
+/-- every frame related to a symbolic state of the run belongs to the same account -/
+theorem R.this_eq {I : Interp} {env : Env} {code : List Nat} {p : Evm.Params} {st st' : SState} {f f' : Evm.Frame}
+    (h : R I env code p st f) (h' : R I env code p st' f') : f'.this = f.this :=
+  h'.env.address.2.2.symm.trans h.env.address.2.2
 
 theorem evm_overflow {p : Evm.Params} {w : Evm.World} {f : Evm.Frame} (h : f.stack.length > 1024) :
     Evm.step p w f = .halt w .stackOverflow := by
@@ -38,9 +39,9 @@ theorem explore_succ (s : Simp) (o : Oracle) (cfg : Cfg) (env : Env) (code : Lis
       if cfg.depth ≠ 0 ∧ steps + 1 > cfg.depth then
         explore s o cfg env code fuel (steps + 1) wl { acc with depthCut := true }
       else
-        explore s o cfg env code fuel (steps + 1) ((step s o cfg env code st).next.reverse ++ wl)
-          { acc with ends := acc.ends ++ (step s o cfg env code st).ends,
-                     boundedLoops := acc.boundedLoops ++ (step s o cfg env code st).bounded } := rfl
+        explore s o cfg env code fuel (steps + 1) ((stepL s o cfg env code st).next.reverse ++ wl)
+          { acc with ends := acc.ends ++ (stepL s o cfg env code st).ends,
+                     boundedLoops := acc.boundedLoops ++ (stepL s o cfg env code st).bounded } := rfl
 
 /-! ### soundness -/
 
@@ -48,18 +49,20 @@ section
 variable (s : Simp) (o : Oracle) (cfg : Cfg) (env : Env) (code : List Nat) (p : Evm.Params) (w : Evm.World)
 
 /-- a worklist state is *good*: every valuation satisfying its path drives the concrete machine from any related
-    initial frame to a frame related to it (or into a stack overflow) -/
+    initial frame (in the start world `w`, whose storage for the executing account is zero) to a world and a frame
+    related to it, the world being described by its storage maps -/
 def GoodState (st : SState) : Prop :=
-  ∀ I : Interp, I.Std → ∀ f0, R I env code p initState f0 → Sat I st.path →
-    (∃ f, CReach p w f0 f ∧ R I env code p st f) ∨ Overflows p w f0
+  ∀ I : Interp, I.Std → ∀ f0, R I env code p initState f0 → WRel I w w f0.this [] [] → Sat I st.path →
+    ∃ w' f, CReach p (w, f0) (w', f) ∧ R I env code p st f ∧ WRel I w w' f0.this st.storage st.transient
 
 /-- an end state is *good*: if it is an untagged EVM outcome of kind `h`, every valuation satisfying its path drives
-    the concrete machine to a frame at which it halts with exactly `h` and the end state's data evaluated (or into a
-    stack overflow) -/
+    the concrete machine to a world and a frame at which it halts with exactly `h` and the end state's data evaluated,
+    in the world the end state's storage maps describe -/
 def GoodEnd (e : EndState) : Prop :=
   e.tag = .normal → ∀ h, e.out = .halt h → ∀ I : Interp, I.Std → ∀ f0, R I env code p initState f0 →
-    Sat I e.st.path →
-      (∃ f, CReach p w f0 f ∧ Evm.step p w f = .halt w (haltWith h (e.data.map (·.eval I)))) ∨ Overflows p w f0
+    WRel I w w f0.this [] [] → Sat I e.st.path →
+      ∃ w' f, CReach p (w, f0) (w', f) ∧ Evm.step p w' f = .halt w' (haltWith h (e.data.map (·.eval I))) ∧
+        WRel I w w' f0.this e.st.storage e.st.transient
 
 end
 
@@ -67,30 +70,33 @@ section
 variable {s : Simp} {o : Oracle} {cfg : Cfg} {env : Env} {code : List Nat} {p : Evm.Params} {w : Evm.World}
 
 theorem goodState_init : GoodState env code p w initState :=
-  fun _ _ f0 hR0 _ => Or.inl ⟨f0, CReach.refl f0, hR0⟩
+  fun _ _ f0 hR0 hW0 _ => ⟨w, f0, CReach.refl _, hR0, hW0⟩
 
 theorem step_good (hs : SimpSound s) (hmem : cfg.maxMem + 32 ≤ p.memLimit) (hcode : ∀ b ∈ code, b < 256)
     {st : SState}
     (hg : GoodState env code p w st) :
-    (∀ st' ∈ (step s o cfg env code st).next, GoodState env code p w st') ∧
-    (∀ e ∈ (step s o cfg env code st).ends, GoodEnd env code p w e) := by
+    (∀ st' ∈ (stepL s o cfg env code st).next, GoodState env code p w st') ∧
+    (∀ e ∈ (stepL s o cfg env code st).ends, GoodEnd env code p w e) := by
   refine ⟨?_, ?_⟩
-  · intro st' hm I hI f0 hR0 hsat'
-    obtain ⟨ext, hp⟩ := step_next_path hm
+  · intro st' hm I hI f0 hR0 hW0 hsat'
+    obtain ⟨ext, hp⟩ := stepL_next_path hm
     have hsat : Sat I st.path := by rw [hp] at hsat'; exact (sat_append.1 hsat').1
-    rcases hg I hI f0 hR0 hsat with ⟨f, hreach, hR⟩ | hov
-    · by_cases hl : f.stack.length ≤ 1024
-      · obtain ⟨f', hr', hR'⟩ := (step_sound (w := w) (o := o) (cfg := cfg) hs hI hR hsat hl hmem hcode).1 st' hm hsat'
-        exact Or.inl ⟨f', hreach.trans hr', hR'⟩
-      · exact Or.inr ⟨f, hreach, by omega⟩
-    · exact Or.inr hov
-  · intro e hm htag h hout I hI f0 hR0 hsat'
-    have hsat : Sat I st.path := by rw [← step_end_path hm]; exact hsat'
-    rcases hg I hI f0 hR0 hsat with ⟨f, hreach, hR⟩ | hov
-    · by_cases hl : f.stack.length ≤ 1024
-      · exact Or.inl ⟨f, hreach, (step_sound (w := w) (o := o) (cfg := cfg) hs hI hR hsat hl hmem hcode).2 e hm htag h hout⟩
-      · exact Or.inr ⟨f, hreach, by omega⟩
-    · exact Or.inr hov
+    obtain ⟨w1, f, hreach, hR, hW⟩ := hg I hI f0 hR0 hW0 hsat
+    have hthis := hR0.this_eq hR
+    rw [← hthis] at hW
+    obtain ⟨w2, f', hr', hR', hW'⟩ :=
+      (stepL_sound (w := w1) (o := o) (cfg := cfg) hs hI hR hsat hmem hcode hW).1 st' hm hsat'
+    rw [hthis] at hW'
+    exact ⟨w2, f', hreach.trans hr', hR', hW'⟩
+  · intro e hm htag h hout I hI f0 hR0 hW0 hsat'
+    have hsat : Sat I st.path := by rw [← stepL_end_path hm]; exact hsat'
+    obtain ⟨w1, f, hreach, hR, hW⟩ := hg I hI f0 hR0 hW0 hsat
+    have hthis := hR0.this_eq hR
+    have hW1 := hW
+    rw [← hthis] at hW1
+    obtain ⟨hstep, hs1, ht1⟩ :=
+      (stepL_sound (w := w1) (o := o) (cfg := cfg) hs hI hR hsat hmem hcode hW1).2 e hm htag h hout
+    exact ⟨w1, f, hreach, hstep, by rw [hs1, ht1]; exact hW⟩
 
 /-- **explore_sound.** Good worklist and good accumulated end states give good end states at the end. -/
 theorem explore_sound (hs : SimpSound s) (hmem : cfg.maxMem + 32 ≤ p.memLimit) (hcode : ∀ b ∈ code, b < 256)
@@ -130,13 +136,14 @@ end
 def Flagged (res : Result) : Prop :=
   res.boundedLoops ≠ [] ∨ res.depthCut = true ∨ res.outOfFuel = true
 
-/-- the concrete outcome `h` of the valuation `I` is accounted for by the result -/
-def Covered (I : Interp) (h : Evm.Halt) (res : Result) : Prop :=
-  (∃ e ∈ res.ends, EndCovers I h e) ∨ Flagged res
+/-- the concrete result `r = (world, outcome)` of the valuation `I` is accounted for by the run's result -/
+def Covered (I : Interp) (w0 : Evm.World) (this : Nat) (r : Evm.World × Evm.Halt) (res : Result) : Prop :=
+  (∃ e ∈ res.ends, EndCovers I w0 this r e) ∨ Flagged res
 
-theorem Covered.mono {I : Interp} {h : Evm.Halt} {a b : Result} (he : ∀ e ∈ a.ends, e ∈ b.ends)
+theorem Covered.mono {I : Interp} {w0 : Evm.World} {this : Nat} {r : Evm.World × Evm.Halt} {a b : Result}
+    (he : ∀ e ∈ a.ends, e ∈ b.ends)
     (hb : a.boundedLoops ≠ [] → b.boundedLoops ≠ []) (hd : a.depthCut = true → b.depthCut = true)
-    (hf : a.outOfFuel = true → b.outOfFuel = true) (hc : Covered I h a) : Covered I h b := by
+    (hf : a.outOfFuel = true → b.outOfFuel = true) (hc : Covered I w0 this r a) : Covered I w0 this r b := by
   rcases hc with ⟨e, hm, hcov⟩ | hb' | hd' | hf'
   · exact Or.inl ⟨e, he e hm, hcov⟩
   · exact Or.inr (Or.inl (hb hb'))
@@ -144,11 +151,12 @@ theorem Covered.mono {I : Interp} {h : Evm.Halt} {a b : Result} (he : ∀ e ∈ 
   · exact Or.inr (Or.inr (Or.inr (hf hf')))
 
 section
-variable {s : Simp} {o : Oracle} {cfg : Cfg} {env : Env} {code : List Nat} {p : Evm.Params} {w : Evm.World}
+variable {s : Simp} {o : Oracle} {cfg : Cfg} {env : Env} {code : List Nat} {p : Evm.Params}
 
 /-- nothing that covers an outcome is ever removed from the result -/
-theorem explore_mono {I : Interp} {h : Evm.Halt} (fuel : Nat) : ∀ (steps : Nat) (wl : List SState) (acc : Result),
-    Covered I h acc → Covered I h (explore s o cfg env code fuel steps wl acc) := by
+theorem explore_mono {I : Interp} {w0 : Evm.World} {this : Nat} {r : Evm.World × Evm.Halt} (fuel : Nat) :
+    ∀ (steps : Nat) (wl : List SState) (acc : Result),
+    Covered I w0 this r acc → Covered I w0 this r (explore s o cfg env code fuel steps wl acc) := by
   induction fuel with
   | zero =>
     intro steps wl acc hc
@@ -169,13 +177,16 @@ theorem explore_mono {I : Interp} {h : Evm.Halt} (fuel : Nat) : ∀ (steps : Nat
         · intro e hm; exact List.mem_append_left _ hm
         · intro hb; simp only [ne_eq, List.append_eq_nil_iff, not_and]; intro h0; exact absurd h0 hb
 
-/-- **explore_complete.** If some worklist state is related to a concrete frame from which the machine terminates with
-    `h` (not a stack overflow) and `I` satisfies its path, the final result covers `h`. -/
+/-- **explore_complete.** If some worklist state is related to a concrete world and frame (of the account `this`, the
+    world described by the state's storage maps) from which the machine terminates with the result `r` and `I`
+    satisfies its path, the final result covers `r`. -/
 theorem explore_complete (hs : SimpSound s) (ho : OracleSound o) (hmem : cfg.maxMem + 32 ≤ p.memLimit)
-    (hcode : ∀ b ∈ code, b < 256) {I : Interp} (hI : I.Std) {w' : Evm.World}
-    {h : Evm.Halt} (hne : h ≠ .stackOverflow) (fuel : Nat) : ∀ (steps : Nat) (wl : List SState) (acc : Result),
-    (∃ st ∈ wl, Sat I st.path ∧ ∃ f, R I env code p st f ∧ Halts p w f (w', h)) →
-    Covered I h (explore s o cfg env code fuel steps wl acc) := by
+    (hcode : ∀ b ∈ code, b < 256) {I : Interp} (hI : I.Std) {w0 : Evm.World} {this : Nat}
+    {r : Evm.World × Evm.Halt} (fuel : Nat) :
+    ∀ (steps : Nat) (wl : List SState) (acc : Result),
+    (∃ st ∈ wl, Sat I st.path ∧ ∃ w f, R I env code p st f ∧ f.this = this ∧
+        WRel I w0 w this st.storage st.transient ∧ Halts p w f r) →
+    Covered I w0 this r (explore s o cfg env code fuel steps wl acc) := by
   induction fuel with
   | zero =>
     intro steps wl acc ⟨st, hm, _⟩
@@ -183,7 +194,7 @@ theorem explore_complete (hs : SimpSound s) (ho : OracleSound o) (hmem : cfg.max
     | nil => cases hm
     | cons st0 wl => rw [explore_zero]; exact Or.inr (Or.inr (Or.inr rfl))
   | succ fuel ih =>
-    intro steps wl acc ⟨st, hm, hsat, f, hR, hh⟩
+    intro steps wl acc ⟨st, hm, hsat, w, f, hR, hthis, hW, hh⟩
     cases wl with
     | nil => cases hm
     | cons st0 wl =>
@@ -191,19 +202,16 @@ theorem explore_complete (hs : SimpSound s) (ho : OracleSound o) (hmem : cfg.max
       split
       · exact explore_mono _ _ _ _ (Or.inr (Or.inr (Or.inl rfl)))
       · rcases List.mem_cons.1 hm with rfl | hm
-        · have hl : f.stack.length ≤ 1024 := by
-            by_contra hgt
-            have := (halts_halt (evm_overflow (p := p) (w := w) (f := f) (by omega))).1 hh
-            cases this
-            exact hne rfl
-          rcases step_complete (cfg := cfg) hs ho hI hR hl hmem hcode hsat hh with
-            ⟨st', hm', hsat', f', hR', hh'⟩ | ⟨e, hme, hcov⟩ | hb
-          · exact ih _ _ _ ⟨st', List.mem_append_left _ (List.mem_reverse.2 hm'), hsat', f', hR', hh'⟩
+        · subst hthis
+          rcases stepL_complete (cfg := cfg) hs ho hI hR hmem hcode hW hsat hh with
+            ⟨st', hm', hsat', w', f', hR', hW', hh'⟩ | ⟨e, hme, hcov⟩ | hb
+          · exact ih _ _ _ ⟨st', List.mem_append_left _ (List.mem_reverse.2 hm'), hsat', w', f', hR',
+              hR.this_eq hR', hW', hh'⟩
           · exact explore_mono _ _ _ _ (Or.inl ⟨e, List.mem_append_right _ hme, hcov⟩)
           · refine explore_mono _ _ _ _ (Or.inr (Or.inl ?_))
             simp only [ne_eq, List.append_eq_nil_iff, not_and]
             intro _; exact hb
-        · exact ih _ _ _ ⟨st, List.mem_append_right _ hm, hsat, f, hR, hh⟩
+        · exact ih _ _ _ ⟨st, List.mem_append_right _ hm, hsat, w, f, hR, hthis, hW, hh⟩
 
 end
 end HalmosVerif.Lemmas.Sevm
